@@ -4,9 +4,12 @@ import (
 	"context"
 	"encoding/json"
 	"errors"
+	"fmt"
+	"io"
 	"net/http"
 	"sort"
 	"strings"
+	"time"
 
 	mcp "trpc.group/trpc-go/trpc-mcp-go"
 )
@@ -251,6 +254,31 @@ var allTools = []toolDef{
 		handler: func(ctx context.Context, req *mcp.CallToolRequest) (*mcp.CallToolResult, error) {
 			return nil, errors.New(CtlText)
 		}},
+	// the sentinel errors real handlers return: from the handler's OWN sub-context (the client still waits), from readers
+	{name: "err-canceled", desc: "an error wrapping context.Canceled", class: "handler-error", errText: "sub-task: context canceled", out: spec{"k": "err", "msg": "sub-task: context canceled"},
+		handler: func(ctx context.Context, req *mcp.CallToolRequest) (*mcp.CallToolResult, error) {
+			sub, cancel := context.WithCancel(ctx)
+			cancel()
+			return nil, fmt.Errorf("sub-task: %w", sub.Err())
+		}},
+	{name: "err-deadline", desc: "an error wrapping context.DeadlineExceeded", class: "handler-error", errText: "backend call: context deadline exceeded", out: spec{"k": "err", "msg": "backend call: context deadline exceeded"},
+		handler: func(ctx context.Context, req *mcp.CallToolRequest) (*mcp.CallToolResult, error) {
+			sub, cancel := context.WithDeadline(ctx, time.Unix(1, 0))
+			defer cancel()
+			return nil, fmt.Errorf("backend call: %w", sub.Err())
+		}},
+	{name: "err-bare-canceled", desc: "context.Canceled itself", class: "handler-error", errText: "context canceled", out: spec{"k": "err", "msg": "context canceled"},
+		handler: func(ctx context.Context, req *mcp.CallToolRequest) (*mcp.CallToolResult, error) {
+			return nil, context.Canceled
+		}},
+	{name: "err-eof", desc: "io.EOF", class: "handler-error", errText: "EOF", out: spec{"k": "err", "msg": "EOF"},
+		handler: func(ctx context.Context, req *mcp.CallToolRequest) (*mcp.CallToolResult, error) {
+			return nil, io.EOF
+		}},
+	{name: "err-joined", desc: "errors.Join of sentinels", class: "handler-error", errText: "unexpected EOF\ncontext canceled", out: spec{"k": "err", "msg": "unexpected EOF\ncontext canceled"},
+		handler: func(ctx context.Context, req *mcp.CallToolRequest) (*mcp.CallToolResult, error) {
+			return nil, errors.Join(io.ErrUnexpectedEOF, context.Canceled)
+		}},
 	{name: "boom-pct", desc: "a Go error with printf material", class: "handler-error", errText: PrintfText, out: spec{"k": "err", "msg": PrintfText},
 		handler: func(ctx context.Context, req *mcp.CallToolRequest) (*mcp.CallToolResult, error) {
 			return nil, errors.New(PrintfText)
@@ -309,6 +337,14 @@ var allPrompts = []promptDef{
 		handler: func(ctx context.Context, req *mcp.GetPromptRequest) (*mcp.GetPromptResult, error) {
 			return nil, errors.New(CtlText + PrintfText)
 		}},
+	{name: "p-err-canceled", desc: "an error wrapping context.Canceled", class: "handler-error", errText: "render: context canceled", out: spec{"k": "err", "msg": "render: context canceled"},
+		handler: func(ctx context.Context, req *mcp.GetPromptRequest) (*mcp.GetPromptResult, error) {
+			return nil, fmt.Errorf("render: %w", context.Canceled)
+		}},
+	{name: "p-err-deadline", desc: "context.DeadlineExceeded", class: "handler-error", errText: "context deadline exceeded", out: spec{"k": "err", "msg": "context deadline exceeded"},
+		handler: func(ctx context.Context, req *mcp.GetPromptRequest) (*mcp.GetPromptResult, error) {
+			return nil, context.DeadlineExceeded
+		}},
 	{name: "p-chan", desc: "a result json.Marshal refuses", class: "unencodable", errText: encoderSays, out: spec{"k": "unenc", "why": encoderSays},
 		handler: func(ctx context.Context, req *mcp.GetPromptRequest) (*mcp.GetPromptResult, error) {
 			return &mcp.GetPromptResult{Result: mcp.Result{Meta: map[string]any{"c": make(chan int)}}, Messages: []mcp.PromptMessage{}}, nil
@@ -344,6 +380,14 @@ var allResources = []resourceDef{
 		multi: func(ctx context.Context, req *mcp.ReadResourceRequest) ([]mcp.ResourceContents, error) {
 			return []mcp.ResourceContents{mcp.TextResourceContents{URI: "verif://r/%d%s%25/100%", MIMEType: "text/x-%s", Text: PrintfText},
 				mcp.TextResourceContents{URI: "verif://ctl", Text: CtlText}}, nil
+		}},
+	{name: "err-canceled", uri: "verif://r/err-canceled", class: "handler-error", errText: "fetch: context canceled", out: spec{"k": "err", "msg": "fetch: context canceled"},
+		single: func(ctx context.Context, req *mcp.ReadResourceRequest) (mcp.ResourceContents, error) {
+			return nil, fmt.Errorf("fetch: %w", context.Canceled)
+		}},
+	{name: "err-eof", uri: "verif://r/err-eof", class: "handler-error", errText: "EOF", out: spec{"k": "err", "msg": "EOF"},
+		multi: func(ctx context.Context, req *mcp.ReadResourceRequest) ([]mcp.ResourceContents, error) {
+			return nil, io.EOF
 		}},
 	{name: "err-ctl", uri: "verif://r/err-ctl", class: "handler-error", errText: asJSONSees(CtlText + " 100%"), out: spec{"k": "err", "msg": asJSONSees(CtlText + " 100%")},
 		single: func(ctx context.Context, req *mcp.ReadResourceRequest) (mcp.ResourceContents, error) {
